@@ -21,7 +21,7 @@ func init() {
 	register(&Property{
 		Meta: report.Meta{
 			Property:    "C12",
-			Explanation: "Structural rules on selector.Parse / resolve: (R1) kind totality — for every segment literal that Parse can produce, the kind it intends (identity, iterator, field, slice, index) is derived from the fields it sets, and resolve's dispatch predicates, evaluated on the abstract values of exactly those fields (constants, regex-derived minimum lengths), must select that kind on every path; (R2) nothing ignored — inside the loop over ALL segments a return with a nil error returns a nil node, a non-nil node is returned only after the loop is exhausted and is the current node; (R3) optional discipline — every failure exit of the field and index cases goes through the optional idiom (errIfNotOptional or a branch on Optional()), other kinds fail with a non-nil error; (R4) slice operands — resolveSliceIndices receives the segment's slice and the length of the very collection that is then sliced; (R5) Select is resolve(selector, subject, nil). Index/slice arithmetic (Python clamping, negative indexes) is a numeric clause and is not decided. (R7) the index case of resolve evaluated on a grid of (index, length) for lists and bytes against element i / length+i / failure; Node.Length() of a bytes node evaluates to -1. (R8) strconv conversions reachable from Parse in the package use base 10 and bit size 0 or 64. The loop stepping a MapIterator in resolve adds the value returned by Next on every step that does not fail. No Convert in package selector narrows a 64-bit integer; a loop computing n = n*c + d compares n (or the length of its text) with a constant. In the iterator case of resolve the cursor is left unchanged only on paths where its kind is known to be list. Each accessor of segment returns recv.<field> (or recv.<field>[:]) on its every path. (R4) every latch or success path of resolve that dispatched a slice segment contains a call of resolveSliceIndices.",
+			Explanation: "Structural rules on selector.Parse / resolve: (R1) kind totality — for every segment literal that Parse can produce, the kind it intends (identity, iterator, field, slice, index) is derived from the fields it sets, and resolve's dispatch predicates, evaluated on the abstract values of exactly those fields (constants, regex-derived minimum lengths), must select that kind on every path; (R2) nothing ignored — inside the loop over ALL segments a return with a nil error returns a nil node, a non-nil node is returned only after the loop is exhausted and is the current node; (R3) optional discipline — every failure exit of the field and index cases goes through the optional idiom (errIfNotOptional or a branch on Optional()), other kinds fail with a non-nil error; (R4) slice operands — resolveSliceIndices receives the segment's slice and the length of the very collection that is then sliced; (R5) Select is resolve(selector, subject, nil). Index/slice arithmetic (Python clamping, negative indexes) is a numeric clause and is not decided. (R7) the index case of resolve evaluated on a grid of (index, length) for lists and bytes against element i / length+i / failure; Node.Length() of a bytes node evaluates to -1. (R8) strconv conversions reachable from Parse in the package use base 10 and bit size 0 or 64. The loop stepping a MapIterator in resolve adds the value returned by Next on every step that does not fail. No Convert in package selector narrows a 64-bit integer; a loop computing n = n*c + d compares n (or the length of its text) with a constant. In the iterator case of resolve the cursor is left unchanged only on paths where its kind is known to be list. Each accessor of segment returns recv.<field> (or recv.<field>[:]) on its every path. (R4) every latch or success path of resolve that dispatched a slice segment contains a call of resolveSliceIndices. (R7) the byte loaded from AsBytes()[i] in the index case flows through conversions only into basicnode.NewInt.",
 			Assumptions: []string{"go-ipld-prime Node.Kind/Length/LookupBy* contracts", "regexp/syntax minimum-length computation is exact for the three regex constants"},
 			Trusted:     []string{"golang.org/x/tools/go/ssa v0.29.0", "regexp/syntax", "go-ipld-prime"},
 			NotDecided:  []string{"resolveSliceIndices arithmetic (clamping, negative indexes)", "negative index arithmetic in the index case", "values returned by go-ipld-prime lookups"},
